@@ -333,7 +333,7 @@ pub fn run(kind: &str, ctx: &Ctx, out: &mut dyn Write) {
     let mut k = 0;
     for src in srcs.iter() {
         // C05 also gets c2d files that keep a false node (a separate generator class)
-        let c2d_false = kind == "c05" && rng.chance(1, 6);
+        let c2d_false = matches!(kind, "c02" | "c03" | "c04" | "c05") && rng.chance(1, 6);
         let inp = match make_input_class(format!("{}-{}", kind, k), src, &mut rng, c2d_false) {
             Some(i) => i,
             None => continue,
